@@ -171,10 +171,12 @@ enum OpKind : uint8_t {
   OP_USP = 5,     // sub = flags, args: init, key, value
   OP_PATTERN = 6, // sub = ic | ptype<<1 | itype<<2 ; args: 9 pattern fields, 9 input fields
   OP_ORIGIN = 7,  // get_origin of the current object (blob: -> nested parse)
+  OP_LIMIT = 8,   // args: decimal value  -> ada::set_max_input_length (administrator thread)
   OP_KINDS
 };
 static const char* const kOpKindName[] = {"parse", "set",  "clear",   "canparse",
-                                          "idna",  "usp",  "pattern", "origin"};
+                                          "idna",  "usp",  "pattern", "origin",
+                                          "limit"};
 enum Setter : uint8_t {
   S_HREF, S_PROTOCOL, S_USERNAME, S_PASSWORD, S_HOST, S_HOSTNAME, S_PORT,
   S_PATHNAME, S_SEARCH, S_HASH, S_COUNT
@@ -269,8 +271,13 @@ inline void add_num(std::string& o, const char* name, uint64_t v) {
   add_field(o, name, std::to_string(v));
 }
 
+// E2 compares states across different length limits; get_origin() of a blob:
+// URL runs a nested parse under the limit and is not a URL "handed out", so that
+// engine switches the origin field off.
+inline bool g_snapshot_origin = true;
+
 template <class U>
-std::string snapshot(const U& u, bool with_origin = true) {
+std::string snapshot(const U& u, bool with_origin = g_snapshot_origin) {
   std::string o;
   o.reserve(256);
   add_field(o, "href", u.get_href());
@@ -553,10 +560,15 @@ inline std::string exec_usp(const Op& op) {
   return o;
 }
 
+// Called at the start of every operation step (hooks.cpp uses it to make the
+// decline decisions of one shortcut consistent within one operation).
+inline void (*g_step_begin)() = nullptr;
+
 // Execute one step on history state `h`.
 template <class U>
 StepObs exec_op(const Op& op, Hist<U>& h) {
   StepObs r;
+  if (g_step_begin) g_step_begin();
   auto a = [&](size_t k) -> const OptStr& {
     static const OptStr none;
     return k < op.args.size() ? op.args[k] : none;
@@ -655,6 +667,13 @@ StepObs exec_op(const Op& op, Hist<U>& h) {
     case OP_USP: {
       r.status = 'K';
       r.text = "K|" + exec_usp(op);
+      return r;
+    }
+    case OP_LIMIT: {
+      uint32_t v = a(0) ? uint32_t(strtoul(a(0)->c_str(), nullptr, 10)) : 0xFFFFFFFFu;
+      ada::set_max_input_length(v);
+      r.status = 'K';
+      r.text = "K|limit=" + std::to_string(v);
       return r;
     }
     case OP_PATTERN: {
